@@ -11,16 +11,24 @@ COMMON_NOTE = ("Trusted: Coq 8.16.1 kernel with vm_compute (no native_compute, n
 
 CHECKS = {
     "C03": dict(
-        text=("Theorems (closed under the global context) about an executable Gallina model of IntervalTree and of the "
-              "matching step of FileSet.match: query / query_points / membership return exactly the overlapping intervals, "
-              "each once, for every list of well-formed closed intervals of any order, nesting or duplication and every query "
-              "(unbounded, by induction); invariance under strictly monotone relabelling covers float and datetime end "
-              "points; match = brute-force specification. The model is tied to trees.py and fileset.py on every run by "
-              "executing both on generated interval sets and harness-built filesets and comparing canonical (sorted) "
-              "index lists inside Coq; because model = spec is a theorem, any disagreement on a well-formed input is a "
-              "failing input of the property."),
-        note=COMMON_NOTE + " numpy array semantics; FileSet.find on flat templates (property C01).",
-        technique="Coq proof (induction over the interval list) + vm_compute correspondence with the implementation",
+        text=("29 theorems (closed under the global context). The centred interval tree (query, query_points, `in`, with the "
+              "whole-span short cut) equals the brute-force overlap specification for every list of well-formed closed intervals "
+              "of any order, nesting or duplication, each index once, invariant under strictly monotone relabelling of the end "
+              "points (float, datetime); the fuel of the model is provably never exhausted (build_never_starved, "
+              "build_fuel_irrelevant) and the depth is at most n, at most log2(n)+1 for distinct left ends. The whole of "
+              "FileSet.match - open start / end, widening of the period by max_interval with clamping at datetime.min / "
+              "datetime.max, the two find() selections, conversion to seconds, widening of the secondaries, tree query - is "
+              "modelled on the microsecond axis and proved equal to the brute-force specification in every case "
+              "(match_full_outcome: ValueError / NoFilesError / exactly the pairs; match_full_yields_exactly with NoDup), with the "
+              "order theorems (match_full_listing_order, match_full_time_order: order of find()'s listing, i.e. by (start, end), "
+              "ties in listing order) and max_interval=None = 0. The behaviour before the repairs 082daed, 26612d6, fdf1ba2 is "
+              "kept as six *_asis_refuted witnesses, one per defect. Tie: the real IntervalTree and FileSet.match are run on "
+              "generated interval sets and harness-built filesets (open, explicit and near-limit periods, files of equal start and "
+              "equal coverage, path order different from time order, every call made twice with the first answers cleared) and "
+              "compared with match_full and its specification evaluated in Coq; because model = spec is a theorem, any "
+              "disagreement on a well-formed input is a failing input of the property."),
+        note=COMMON_NOTE + " numpy array / datetime arithmetic (int(total_seconds()) exact below 2^53 us); FileSet.find's period selection on flat templates is exercised here and proved under property C01; sub-second files and fractional max_interval are modelled but not generated.",
+        technique="Coq proof (induction, permutation and sortedness arguments over interval lists; model = specification) + vm_compute correspondence with the implementation on generated cases",
         design="5/C03"),
     "C09": dict(
         text=("The model is REGENERATED from typhon/physics/atmosphere.py on every run by a fail-closed Python-ast -> Coq translator "
